@@ -46,6 +46,30 @@ def _chain(build_node):
     return chains
 
 
+def _dealias(fnode, expr):
+    """Source of `expr` with single-assignment local aliases (`x = self.attr_spec`) substituted."""
+    assigns = {}
+    for n in ast.walk(fnode):
+        if isinstance(n, ast.Assign) and len(n.targets) == 1 and isinstance(n.targets[0], ast.Name):
+            assigns.setdefault(n.targets[0].id, []).append(n.value)
+
+    class Sub(ast.NodeTransformer):
+        depth = 0
+
+        def visit_Name(self, node):
+            vs = assigns.get(node.id)
+            if vs and len(vs) == 1 and isinstance(node.ctx, ast.Load) and isinstance(vs[0], (ast.Attribute, ast.Name, ast.BoolOp, ast.IfExp)) \
+                    and node.id not in {x.id for x in ast.walk(vs[0]) if isinstance(x, ast.Name)} and self.depth < 4:
+                self.depth += 1
+                try:
+                    return self.visit(ast.parse(ast.unparse(vs[0]), mode="eval").body)
+                finally:
+                    self.depth -= 1
+            return node
+    import copy as _copy
+    return ast.unparse(Sub().visit(_copy.deepcopy(expr)))
+
+
 def _impl_sig(h):
     a = h.impl.node.args
     pos = [p.arg for p in a.posonlyargs + a.args]
@@ -90,7 +114,7 @@ def _check_main(ctx, rep: Report):
                 kind = kind.value if isinstance(kind, ast.Constant) else ("positional_or_keyword" if kind is None else ast.unparse(kind))
                 args.append((aname, kind, kw.get("default"), kw.get("only_if")))
             elif name == "with_spec_attrs_for":
-                spec_for = ast.unparse(a[0]) if a else None
+                spec_for = _dealias(h.build.node, a[0]) if a else None
         rep.evaluations += 1
         for aname, kind, default, only_if in args:
             if aname == "spec_class_key":     # dynamic name: the key attribute (flows into **kwargs of init)
